@@ -260,6 +260,50 @@ func runC06(c *Ctx) {
 		c.Check(esc.May(sc), r3, "escalation-reachable", FirstPos(p, sc), "the stop core can escalate to SIGKILL", "the stop core never escalates to SIGKILL")
 	}
 
+	// the clock of shutdown.timeout_seconds starts when the signal was sent
+	{
+		rArm := c.Rule("deadline-armed-after-signal", "every context.WithTimeout whose duration is ShutDownTimeout*time.Second (the SIGKILL deadline) is created after the configured stop signal was sent to this process, on every call chain (the grace period is counted from the signal, not from the start of the project shutdown)")
+		sigSite := p.Deep(Site{Name: "Stop(configured signal)", Call: func(cc *ssa.CallCommon) bool {
+			if !sameFunc(CalleeObj(cc), s.MStop) {
+				return false
+			}
+			args := ArgsOf(cc)
+			return len(args) == 2 && PathOf(args[0]).LastField() == s.FSignal
+		}})
+		nArm := 0
+		for _, f := range p.FuncsOfPkg("app") {
+			AllInstrs(f, func(in ssa.Instruction) {
+				call, ok := in.(*ssa.Call)
+				if !ok {
+					return
+				}
+				o := CalleeObj(&call.Call)
+				if o == nil || o.Pkg() == nil || o.Pkg().Path() != "context" || o.Name() != "WithTimeout" || len(call.Call.Args) != 2 {
+					return
+				}
+				bo, isB := call.Call.Args[1].(*ssa.BinOp)
+				if !isB {
+					return
+				}
+				if PathOf(bo.X).LastField() != s.FShutDownTimeout && PathOf(bo.Y).LastField() != s.FShutDownTimeout {
+					return
+				}
+				// not the shutdown-command context (its value goes through a local with a default)
+				nArm++
+				c.Touch(f)
+				ok2, off := p.PrecededUp(call, sigSite, 4)
+				pos := p.InstrPos(call)
+				if off != nil {
+					pos = p.InstrPos(off)
+				}
+				c.Check(ok2, rArm, p.FuncKey(f), pos, "the deadline is armed after the signal", "the SIGKILL deadline can be armed before the stop signal is sent (e.g. when the project shutdown starts): a process that is signalled late is killed before its timeout_seconds have elapsed")
+			})
+		}
+		if nArm == 0 {
+			c.Bad(rArm, "none", "", "no SIGKILL deadline derived from shutdown.timeout_seconds found")
+		}
+	}
+
 	// ------------------------------------------------------------------ (4)
 	r4 := c.Rule("shutdown-command-context", "the command built from ShutDownParams.ShutDownCommand is created with a context from context.WithTimeout and receives SetEnv(<process environment>) and SetDir(procConf.WorkingDir) on every path before Run()")
 	envFns := s.envFuncs()
